@@ -199,6 +199,13 @@ func genComponentStream(r *Rng, ft byte, focus uint16) *RecStream {
 					pl = append(pl, b...)
 				}
 				g.emitData(local, false, 0, pl)
+				if k == n/2 && r.Chance(1, 6) {
+					// a second file_id of the same type in the middle of the records is legal
+					// and starts nothing over
+					il := byte((int(local) + 1 + r.Intn(15)) % 16)
+					g.emitDef(&DefOp{Local: il, Arch: g.arch(), Global: 0, Fields: [][3]int{{0, 1, 0}}})
+					g.emitData(il, false, 0, []byte{ft})
+				}
 			}
 		case gLap, gSession, gSegmentLap:
 			names := []string{"AvgAltitude", "MaxAltitude", "MinAltitude"}
@@ -301,9 +308,22 @@ func (p *propC18) Gen(idx int) *Scenario {
 			other = h.ft
 		}
 		rs2 := &RecStream{Header: rs.Header, Ops: append([]Op{}, rs.Ops...)}
-		d2 := *rs.Ops[1].Data
-		d2.Bytes = hexs([]byte{other})
-		rs2.Ops[1] = Op{Data: &d2}
+		// every file_id record of the twin (the leading one and a repeated one) names the other type
+		var tdefs [16]*DefOp
+		for i, op := range rs.Ops {
+			if op.Def != nil {
+				tdefs[op.Def.Local&15] = op.Def
+				continue
+			}
+			if op.Data == nil || op.Data.Comp {
+				continue
+			}
+			if d := tdefs[op.Data.Local&15]; d != nil && d.Global == 0 && len(d.Fields) == 1 && d.Fields[0] == [3]int{0, 1, 0} {
+				d2 := *op.Data
+				d2.Bytes = hexs([]byte{other})
+				rs2.Ops[i] = Op{Data: &d2}
+			}
+		}
 		sc.Family = "twin"
 		sc.Media = []Medium{{ID: "m0", Records: rs}, {ID: "m1", Records: rs2}}
 		sc.Tasks = []Task{{ID: 0, Call: "Decode", In: "m0", Read: plan}, {ID: 1, Call: "Decode", In: "m1", Read: plan}}
